@@ -92,3 +92,11 @@ From Turn Require Import Common RelayCheck RelayProps RelayTrace.
 Theorem C01_predicate_holds_on_every_model_trace : forall cfg ep h, cfg_relay_wf cfg -> chk_C01_gate (model_case cfg ep h) = true.
 Proof. exact chk_C01_gate_model. Qed.
 Print Assumptions C01_predicate_holds_on_every_model_trace.
+
+(* C01 in full on every model trace: the gate, and "a permission / binding that is present" means "one whose timeout,
+   as computed from the server's own success responses, has not elapsed" (chk_C01 = gate && chk_C06 && chk_C07) *)
+From Turn Require Import RelayTime RelayTime7 RelayTrace2.
+Theorem C01_full_predicate_holds_on_every_model_trace : forall cfg ep h,
+  cfg_relay_wf cfg -> cfg_seconds cfg -> cfg_positive cfg -> chk_C01 (model_case cfg ep h) = true.
+Proof. exact chk_C01_full_model. Qed.
+Print Assumptions C01_full_predicate_holds_on_every_model_trace.
